@@ -8,6 +8,7 @@ import Holpy.C12.Complete
 import Holpy.C12.Edits
 import Holpy.C12.Hist
 import Holpy.C12.Users
+import Holpy.C12.UsersIso
 /-
 C12 — property theorems (statements live here, helper lemmas in Proofs / Exec / Exec2 / Complete / Reread / Edits / Hist).
 
@@ -418,8 +419,10 @@ theorem focus_thy (s : State) (u : Nat) : (s.focus u).thy = s.thy := by
     user `u` ALONE (imports are looked up in `users/<u>/` only — the code has no fall-back to, or shadowing of, the
     master library), so a normal return carries the specification evaluated on u's own files.
     PARTIAL: proved for worlds without lazy imports (`lazyOf = none`).  With lazy imports a user's load can run
-    master loads through the `basic.load_theory` calls of imported modules (modelled in `execU`, tied to the
-    implementation by the second-user histories of the harness, not covered by a theorem). -/
+    master loads through the `basic.load_theory` calls of imported modules (modelled in `execU`; `users_isolated`
+    shows that these never touch a third user; that the user's own result is still the specification then, and the
+    history-level statement for several users, are tied to the implementation by the second-user histories of the
+    harness only). -/
 theorem user_resolution_spec_partial (W : World) (hlazy : ∀ n, W.lazyOf n = none) (L : Lib) (U : Used) (s : State)
     (u : Nat) (hi : Inv W L U (s.focus u)) (f : Nat) (n : Name) (lim : Limit) :
     let r := execU W none (f + 1) (.load u n lim) s
@@ -444,31 +447,53 @@ example :
     ∧ specLoad siWorld (uState.focus 1).lib 5 2 .none = .ok [110, 120] :=
   ⟨by decide, by decide, by rfl⟩
 
-/-- Users are isolated as far as FILES go: replacing (or touching) a file of another user `B` changes neither the
-    library nor the cache of the user in focus, nor `theory.thy`; and an edit of a file of the user in focus leaves
-    the stored library and cache of every other user `A` as they are.
-    PARTIAL: that LOADS of user B leave every user A ∉ {B, master} untouched is how `execU` is built (a load focuses
-    on B's component; only master is reached, through module imports) and is tied to the implementation by the
-    second-user histories of the harness; it is not stated as a theorem. -/
-theorem users_isolated_partial (W : World) (fuel : Nat) (s : State) (B : Nat) (n : Name)
-    (imps : List Name) (items : List Item) (t : Nat) :
-    (B ≠ s.user →
-      (stepU W fuel (.edit B n imps items t) s).2.names = s.names ∧ (stepU W fuel (.edit B n imps items t) s).2.files = s.files
-      ∧ (stepU W fuel (.edit B n imps items t) s).2.cache = s.cache ∧ (stepU W fuel (.edit B n imps items t) s).2.thy = s.thy
-      ∧ (stepU W fuel (.touch B n t) s).2.files = s.files ∧ (stepU W fuel (.touch B n t) s).2.cache = s.cache)
-    ∧ (B = s.user → ∀ A, (stepU W fuel (.edit B n imps items t) s).2.others A = s.others A) := by
-  constructor
-  · intro hB
-    have hB' : ¬ s.user = B := fun h => hB h.symm
-    unfold stepU State.focus setFile
-    simp [hB, hB']
-  · intro hB A
-    unfold stepU State.focus setFile
-    simp [hB]
+/-- Users are isolated.  (i) A `load_theory(..., username=B)` — with everything it triggers: lazily imported modules
+    and the master loads those modules make — never changes the library or the cache of any user `A` other than `B`
+    and master.  (ii) Replacing or touching a file of user `B`, or re-reading B's metadata, never changes the library
+    or the cache of another user `A`.  (`A` out of focus: between the loader's public entry points the focus is on
+    the caller's user; `others A` is the stored library and cache of `A`.)  So what a later load of `A` sees of its own
+    files and cache is what it would see had B's operations not happened. -/
+theorem users_isolated (W : World) (fault : Option Item) (fuel : Nat) (s : State) (A B : Nat) (hAB : B ≠ A)
+    (hs : s.user ≠ A) (n : Name) (lim : Limit) (imps : List Name) (items : List Item) (t : Nat) :
+    (A ≠ 0 → (execU W fault fuel (.load B n lim) s).2.user = s.user ∧ (execU W fault fuel (.load B n lim) s).2.others A = s.others A)
+    ∧ (stepU W fuel (.edit B n imps items t) s).2.others A = s.others A
+    ∧ (stepU W fuel (.touch B n t) s).2.others A = s.others A
+    ∧ (stepU W fuel (.reloadMeta B) s).2.others A = s.others A := by
+  refine ⟨fun hA => fr_execU W fault hA fuel (.load B n lim) s hs hAB, ?_, ?_, ?_⟩
+  · unfold stepU
+    obtain ⟨h1, h2⟩ := fr_focus (A := A) s B hAB hs
+    have h3 : (setFile (s.focus B) n { imports := imps, items := items, mtime := t }).user ≠ A := by
+      show (s.focus B).user ≠ A; rw [h1]; exact hAB
+    obtain ⟨_, h4⟩ := fr_focus (A := A) (setFile (s.focus B) n { imports := imps, items := items, mtime := t }) s.user hs h3
+    simp only []
+    rw [h4]; exact h2
+  · unfold stepU
+    obtain ⟨h1, h2⟩ := fr_focus (A := A) s B hAB hs
+    simp only []
+    have h3 : (setFile (s.focus B) n { (s.focus B).files n with mtime := t }).user ≠ A := by
+      show (s.focus B).user ≠ A; rw [h1]; exact hAB
+    obtain ⟨_, h4⟩ := fr_focus (A := A) (setFile (s.focus B) n { (s.focus B).files n with mtime := t }) s.user hs h3
+    rw [h4]; exact h2
+  · unfold stepU
+    obtain ⟨h1, h2⟩ := fr_focus (A := A) s B hAB hs
+    simp only []
+    have h5 : Fr A (s.focus B) (loadMetadata (s.focus B)).2 := fr_loadMetadata _
+    have h3 : (loadMetadata (s.focus B)).2.user ≠ A := by rw [h5.1, h1]; exact hAB
+    obtain ⟨_, h4⟩ := fr_focus (A := A) (loadMetadata (s.focus B)).2 s.user hs h3
+    rw [h4, h5.2]; exact h2
+
+/-- three users: master, 1 and 2 (user 2 has item 220 in theory 2) -/
+def uState3 : State :=
+  { uState with others := fun u => if u = 2 then { names := [1, 2], files := fun n =>
+      if n = 1 then { imports := [], items := [210], mtime := 5 } else { imports := [1], items := [220], mtime := 5 } }
+      else uState.others u }
 
 example :
-    (execU siWorld none 50 (.load 1 2 .none) (stepU siWorld 50 (.edit 0 1 [] [11] 9) uState).2).2.thy = some [110, 120]
-    ∧ (execU siWorld none 50 (.load 0 2 .none) (stepU siWorld 50 (.edit 1 1 [] [111] 9) uState).2).2.thy = some [10, 20] :=
+    -- what user 2 gets is the same before and after user 1 loads, edits and reloads
+    (execU siWorld none 50 (.load 2 2 .none) uState3).2.thy = some [210, 220]
+    ∧ (execU siWorld none 50 (.load 2 2 .none)
+        (stepU siWorld 50 (.reloadMeta 1) (stepU siWorld 50 (.edit 1 1 [] [111] 9)
+          (execU siWorld none 50 (.load 1 2 .none) uState3).2).2).2).2.thy = some [210, 220] :=
   ⟨by decide, by decide⟩
 
 /-! ### the tables generated from the sources -/
